@@ -645,7 +645,12 @@ def evaluate(ctx, case, variants, report=True):
     real = [realise(xs, lay, po) for (_, lay, po) in variants]
     obs = vflib.pmap(lambda r_l: observe(r_l[0][0], "/".join(list(r_l[1]["main"][0]) + [r_l[1]["main"][1]])),
                      list(zip(real, [v[1] for v in variants])))
-    models = [parse_model(a) for a in vflib.driver_run(["of.load\t" + r[1] for r in real])]
+    try:
+        answers = vflib.driver_run(["of.load\t" + r[1] for r in real])
+    except Exception as ex:   # the model side must never take the implementation-side oracle down with it
+        ctx.tie_broken("corr:driver", "the Lean driver failed on case %s: %s" % (case.name, str(ex)[:500]))
+        answers = ["err\tdriver\t1100"] * len(real)
+    models = [parse_model(a) for a in answers]
     base_o, base_m = obs[0], models[0]
     # the generator only writes transactions that balance exactly, have an elided posting, or are plain
     # two-commodity exchanges, so membership in the fragment is decided by the model's `orderFree` alone;
@@ -660,12 +665,12 @@ def evaluate(ctx, case, variants, report=True):
         ctx.feature("variant:" + kind)
         if kind == "cut":
             ctx.feature("cut:%s:k=%d" % (lay.get("style"), lay.get("k", 0)))
-        d = model_vs_binary(m, o)
+        d = None if m["err"] == "driver" else model_vs_binary(m, o)
         if d:
             res["tie"].append((kind, d, files, mj))
-        else:
+        elif m["err"] != "driver":
             ctx.traces_validated += 1
-        if m["flags"] and len(m["flags"]) >= 4:
+        if m["flags"] and len(m["flags"]) >= 4 and m["err"] != "driver":
             if m["flags"][2] != "1":
                 res["tie"].append((kind, "model: loading the file tree differs from loading its flattening", files, mj))
             if in_fragment and m["flags"][3] != "1":
@@ -692,8 +697,10 @@ def evaluate(ctx, case, variants, report=True):
         for kind, d, files, mj in res["tie"][:1]:
             ctx.tie_broken("corr:of.load", "%s [%s variant of %s]\nfiles: %s" % (d, kind, case.name, json.dumps(files)[:1500]))
             ctx.mism.append({"case": case.name, "variant": kind, "what": d, "files": files})
-        seen_fp = set()
+        # one shrunk report per fingerprint and run (shrinking costs dozens of paired runs)
+        seen_fp = {v[0] for v in ctx.violations} | {h[0] for h in ctx.known_hits}
         for fp, what, kind, lay, po, files in res["fail"]:
+            ctx.feature("oracle-failure:" + fp)
             if fp in seen_fp:
                 continue
             seen_fp.add(fp)
